@@ -487,11 +487,54 @@ def gen_case(draw):
     return {"tree": tree, "constraints": cons}
 
 
+@st.composite
+def bswap16_case(draw):
+    """Byte reversal of a 16-bit annotated variable (any interval: strided, wrapping, narrow, huge) or of a 16-bit value built from
+    an 8-bit annotated variable, under arithmetic, bitwise operations, comparisons, slicing and a second reversal."""
+    mod = 1 << 16
+    if draw(st.booleans()):
+        v = ("var", "v0_16", 16)
+        lb = draw(st.one_of(st.sampled_from((0, 1, 0xFF, 0x100, 0x7FFF, 0x8000, 0xFF00, 0xFFFF)), st.integers(0, mod - 1)))
+        s_ = draw(st.sampled_from((1, 1, 2, 3, 0x100, 0x101, 256 * 3, 7)))
+        cnt = draw(st.one_of(st.integers(0, 40), st.integers(0, (mod - 1) // s_)))
+        v = ("anno", [s_ if cnt else 0, lb, (lb + cnt * s_) % mod], v)
+        inner = v
+    else:
+        w = ("var", "v0_8", 8)
+        lb = draw(st.integers(0, 255))
+        s_ = draw(st.sampled_from((1, 1, 2, 3, 16)))
+        cnt = draw(st.integers(0, 255 // s_))
+        w = ("anno", [s_ if cnt else 0, lb, (lb + cnt * s_) % 256], w)
+        inner = draw(st.sampled_from([("zext", 8, w), ("sext", 8, w), ("concat", w, _c(draw(st.sampled_from((0, 0x80, 0xFF))), 8)), ("concat", _c(draw(st.sampled_from((0, 1, 0xFF))), 8), w)]))
+    r = ("bswap", inner)
+    k = draw(st.integers(0, 9))
+    c16 = lambda: _c(draw(st.one_of(st.sampled_from((0, 1, 0xFF, 0x100, 0x7FFF, 0x8000, 0xFF00, 0xFFFF)), st.integers(0, mod - 1))), 16)  # noqa: E731
+    if k <= 2:
+        tree = (draw(st.sampled_from(ir.BV_CMP)), r, c16()) if draw(st.booleans()) else (draw(st.sampled_from(ir.BV_CMP)), c16(), r)
+    elif k <= 4:
+        tree = (draw(st.sampled_from(("bvadd", "bvsub", "bvmul", "bvand", "bvor", "bvxor"))), r, c16())
+    elif k == 5:
+        tree = ("extract", draw(st.sampled_from((7, 15, 11))), draw(st.sampled_from((0, 4, 8))), r)
+        if tree[1] < tree[2]:
+            tree = ("extract", 15, 8, r)
+    elif k == 6:
+        tree = ("bswap", ("bvadd", r, c16()))
+    elif k == 7:
+        tree = (draw(st.sampled_from(ir.BV_CMP)), r, inner)
+    elif k == 8:
+        tree = (draw(st.sampled_from(("bvshl", "bvlshr", "bvashr"))), r, _c(draw(st.sampled_from((1, 4, 8, 9))), 16))
+    else:
+        tree = ("ite", (draw(st.sampled_from(ir.BV_CMP)), r, c16()), r, inner)
+    return {"tree": tree, "constraints": []}
+
+
 N = {"quick": 1800, "thorough": 25000}
 
 
 def shards(tier, seed):
-    return [{"i": i, "n": N[tier], "hseed": seed * 1000 + 2400 + i} for i in range(16)]
+    out = [{"i": i, "n": N[tier], "hseed": seed * 1000 + 2400 + i} for i in range(16)]
+    out += [{"i": 16 + j, "bswap": True, "n": N[tier] // 12, "hseed": seed * 1000 + 2440 + j} for j in range(4)]
+    return out
 
 
 def run_shard(shard, ctx):
@@ -508,7 +551,7 @@ def run_shard(shard, ctx):
                 seen.add(fp)
                 ctx.fail(fp, case, obs)
 
-    hyp.run(gen_case(), shard["n"], shard["hseed"], body, ctx)
+    hyp.run(bswap16_case() if shard.get("bswap") else gen_case(), shard["n"], shard["hseed"], body, ctx)
 
 
 def shrink(case, obs, fp, matcher, deadline):
